@@ -323,9 +323,12 @@ def run(prop, tier, seed, replay=None):
     if replay:
         rep = json.load(open(replay))
         job = {'mode': rep['mode'], 'schedules': [rep['schedule']], 'known': SLUGS, 'workers': 1, 'wait_ms': wait_ms}
-        ck.cov['evaluations'] = 1
-        ck.cov['distinct_nontrivial'] = 1
         res = harness(ck, job, known, INSTR_GATE if rep.get('gate') in GATED else None, 'replay')
+        ck.cov['evaluations'] = sum(r['steps'] for r in res) if res else 0
+        ck.cov['distinct_nontrivial'] = sum(r['compared'] + r['later_checks'] + r['pending_checks'] + r['census_checks'] for r in res) if res else 0
+        ck.cov['rule'] = 'replay of one recorded behaviour: evaluations = steps executed on the real code, distinct_nontrivial = ' \
+                         'state comparisons + oracle evaluations (later calls, pending calls, census) performed'
+        ck.sample({'replayed': brief(rep['schedule']) or rep['schedule']['name']})
         if res is not None:
             if rep['schedule']['name'].startswith('witness-'):
                 witness_verdict(ck, prop, known, rep['schedule'], res[0])
@@ -409,7 +412,15 @@ def run(prop, tier, seed, replay=None):
         paths, remaining = tlc.cover_paths(inits, edges)
         total_paths = len(paths)
         if len(paths) > limit:
-            paths = rng.sample(paths, limit)
+            # seeded sample, stratified so that every kind of pending call / callback / peer action is represented
+            chosen, rest = [], list(paths)
+            rng.shuffle(rest)
+            for act in ('ParkFlush', 'ParkAccept', 'CbRelease', 'PeerCloseStream', 'TryOpen', 'ParkRead', 'StreamClose'):
+                have = [p for p in rest if any(edges[e][2].startswith(act) for e in p)][:max(6, limit // 10)]
+                for p in have:
+                    rest.remove(p)
+                chosen += have
+            paths = (chosen + rest)[:max(limit, len(chosen))]
         scheds = []
         for pi, p in enumerate(paths):
             s = g.schedule(p, 'cover-%d-%d' % (ci, pi))
